@@ -156,6 +156,8 @@ def run(ctx, rep):
     rep.rule("E", "the 'used' set relies on name matching: C05 rule E re-evaluated (an import must only be matched exactly or at a dot boundary)")
     c05.matching_rules(ctx, rep, "C06")
     c05.builtin_tables(ctx, rep, "C06")
+    rep.rule("B/D", "inherits C05 B/D: what enters the 'used' set is the key resolve_type stores - an import is 'used' exactly when a reference resolves through it")
+    c05.resolve_type_rules(ctx, rep, "C06")
     # ---- F
     form_i = fold_rule(rep, facts, "validation::check_imports", None, {"diagnostics": Opaque("diagnostics")}, "import", "C06", "imports", False)
     form_d = fold_rule(rep, facts, "validation::check_declared_parcelables", None, {"diagnostics": Opaque("diagnostics"), "imports": sym_ref("imports")}, "declared_parcelable", "C06", "forward declarations", True)
